@@ -120,3 +120,65 @@ package routing
 //@ func toProcessName
 //@   ensures forall k int {procName[k]} :: 0 <= k && k < 16 && k < len(processName) ==> procName[k] == processName[k]
 //@   ensures forall k int {procName[k]} :: len(processName) <= k && k < 16 ==> procName[k] == 0
+
+// C01 (meaning of condition values): the preset parsers turn the values of one key group into what the
+// lowering callback receives. l4proto / ipversion: the mask has the TCP (4) bit exactly when "tcp" ("4") is
+// among the values and the UDP (6) bit exactly when "udp" ("6") is, and no other bit.
+//@ func L4ProtoParserFactory$1
+//@   dyncalls noeffect
+//@   modifies *
+//@   let hasv(s string, n int) = exists k int {paramValueGroup[k]} :: 0 <= k && k < n && paramValueGroup[k] == s
+//@   at call dyn:callback#1 assert a0 == f && a2 == overrideOutbound
+//@   at call dyn:callback#1 assert ((a1 & 1) != 0 <==> hasv("tcp", len(paramValueGroup))) && ((a1 & 2) != 0 <==> hasv("udp", len(paramValueGroup))) && (a1 & 252) == 0
+//@   loop 1
+//@     invariant ((l4protoType & 1) != 0 <==> hasv("tcp", $idx)) && ((l4protoType & 2) != 0 <==> hasv("udp", $idx)) && (l4protoType & 252) == 0
+//@ func IpVersionParserFactory$1
+//@   dyncalls noeffect
+//@   modifies *
+//@   let hasv(s string, n int) = exists k int {paramValueGroup[k]} :: 0 <= k && k < n && paramValueGroup[k] == s
+//@   at call dyn:callback#1 assert a0 == f && a2 == overrideOutbound
+//@   at call dyn:callback#1 assert ((a1 & 1) != 0 <==> hasv("4", len(paramValueGroup))) && ((a1 & 2) != 0 <==> hasv("6", len(paramValueGroup))) && (a1 & 252) == 0
+//@   loop 1
+//@     invariant ((ipVersion & 1) != 0 <==> hasv("4", $idx)) && ((ipVersion & 2) != 0 <==> hasv("6", $idx)) && (ipVersion & 252) == 0
+
+// port / mac / pname: value k of the group is parsed into element k of what the callback receives (in order,
+// none skipped); a value that does not parse is an error and the callback is not called.
+//@ func PortRangeParserFactory$1
+//@   dyncalls noeffect
+//@   modifies *
+//@   at call ParsePortRange#1 assert a0 == paramValueGroup[$idx]
+//@   at call builtin:append#1 assert a0 == portRanges && len(portRanges) == $idx && a1[0] == portRange && err == nil
+//@   at call dyn:callback#1 assert a0 == f && a2 == overrideOutbound && a1 == portRanges && len(portRanges) == len(paramValueGroup)
+//@   loop 1
+//@     invariant len(portRanges) == $idx
+//@ func MacParserFactory$1
+//@   dyncalls noeffect
+//@   modifies *
+//@   at call ParseMac#1 assert a0 == paramValueGroup[$idx]
+//@   at call builtin:append#1 assert a0 == macAddrs && len(macAddrs) == $idx && a1[0] == mac && err == nil
+//@   at call dyn:callback#1 assert a0 == f && a2 == overrideOutbound && a1 == macAddrs && len(macAddrs) == len(paramValueGroup)
+//@   loop 1
+//@     invariant len(macAddrs) == $idx
+//@ func ProcessNameParserFactory$1
+//@   dyncalls noeffect
+//@   nonilcheck
+//@   modifies *
+//@   at call toProcessName#1 assert a0 == paramValueGroup[$idx]
+//@   at call builtin:append#1 assert a0 == procNames && len(procNames) == $idx
+//@   at call dyn:callback#1 assert a0 == f && a2 == overrideOutbound && a1 == procNames && len(procNames) == len(paramValueGroup)
+//@   loop 1
+//@     invariant len(procNames) == $idx
+//@ func IpParserFactory$1
+//@   dyncalls noeffect
+//@   modifies *
+//@   at call parsePrefixes#1 assert a0 == paramValueGroup
+//@   at call dyn:callback#1 assert a0 == f && a1 == cidrs && a2 == overrideOutbound
+//@ func EmptyKeyPlainParserFactory$1
+//@   dyncalls noeffect
+//@   modifies *
+//@   at call dyn:callback#1 assert key == "" && a0 == f && a1 == paramValueGroup && a2 == overrideOutbound
+//@ func PlainParserFactory$1
+//@   dyncalls noeffect
+//@   modifies *
+//@   at call dyn:callback#1 assert a0 == f && a1 == key && a2 == paramValueGroup && a3 == overrideOutbound
+//@   ensures calls("dyn:callback") == 1
